@@ -5,6 +5,8 @@ import (
 	"context"
 	stdjson "encoding/json"
 	"fmt"
+	"io"
+	"math"
 	"math/rand"
 	"reflect"
 	"runtime"
@@ -102,7 +104,72 @@ func c10Trial(c *rt.Ctx, sub int, r *rand.Rand, G, procs, opsPer int, yieldMode 
 		var ops []c10Op
 		for k := 0; k < opsPer; k++ {
 			id := g*100000 + k
-			switch rr.Intn(22) {
+			switch rr.Intn(24) {
+			case 22:
+				// a failing encode through a rotating entry point: the error paths release the
+				// pooled context too
+				fv := []any{math.NaN(), map[string]any{"c": make(chan int)}, zoo.MErr{N: 1}, []any{id, zoo.MErr{N: 3}}}[id%4]
+				ops = append(ops, c10Op{name: "encode:failing", run: func() (string, string) {
+					var err error
+					switch id % 7 {
+					case 0:
+						_, err = gojson.Marshal(fv)
+					case 1:
+						_, err = gojson.MarshalIndent(fv, "", " ")
+					case 2:
+						_, err = gojson.MarshalNoEscape(fv)
+					case 3:
+						_, err = gojson.MarshalContext(context.Background(), fv)
+					case 4:
+						_, err = gojson.MarshalWithOption(fv, gojson.UnorderedMap())
+					case 5:
+						err = gojson.NewEncoder(io.Discard).Encode(fv)
+					default:
+						err = gojson.NewEncoder(io.Discard).EncodeContext(context.Background(), fv)
+					}
+					return fmt.Sprint(err != nil), "true"
+				}})
+			case 23:
+				ops = append(ops, c10Op{name: "decode:failing", run: func() (string, string) {
+					bad := [][]byte{[]byte(`{"a":{"b":1}} x`), []byte(`[1,2`), []byte(`{"A":"s"}`), []byte(`{"a":1}{`)}[id%4]
+					if id%6 == 3 || id%6 == 4 {
+						// the path entry points fail on malformed input only
+						bad = [][]byte{[]byte(`{"a":{"b":1}} x`), []byte(`[1,2`), []byte(`{"a":{"b":[1]},"k":[1,2]}]`)}[id%3]
+					}
+					var err error
+					switch id % 6 {
+					case 0:
+						var v QT
+						err = gojson.Unmarshal(bad, &v)
+					case 1:
+						var v QT
+						err = gojson.UnmarshalContext(context.Background(), bad, &v)
+					case 2:
+						var v QT
+						err = gojson.UnmarshalNoEscape(bad, &v)
+					case 3:
+						if perr == nil {
+							_, err = path.Extract(bad)
+						} else {
+							err = perr
+						}
+					case 4:
+						var v any
+						if perr == nil {
+							err = path.Unmarshal(bad, &v)
+						} else {
+							err = perr
+						}
+					default:
+						var v QT
+						d := gojson.NewDecoder(bytes.NewReader(bad))
+						err = d.Decode(&v)
+						if err == nil {
+							err = d.Decode(&v)
+						}
+					}
+					return fmt.Sprint(err != nil), "true"
+				}})
 			case 19, 20:
 				ti := rr.Intn(len(freshRT))
 				ops = append(ops, c10Op{name: "Marshal:fresh-struct-with-interface", run: func() (string, string) {
